@@ -4,6 +4,8 @@
 -/
 import CedarProofs.Prefix
 import CedarProps.C01
+import CedarProps.C02
+import CedarProofs.FirstFrame
 
 namespace Cedar.C04
 open Cedar
@@ -328,5 +330,123 @@ example : SentIs ({} : Stream) [] ∧ RecvdIs ({} : Stream) [] := by
 example : ∃ s' f, ({} : Stream).sendFrame [1, 2, 3] 1 = .ok (s', f) ∧ SentIs s' [(1, [1, 2, 3])] := by
   refine ⟨_, _, rfl, ?_⟩
   exact sentIs_step {} _ [] [1, 2, 3] 1 _ ⟨rfl, rfl, rfl⟩ rfl rfl
+
+/-! ### The same, without assuming which seal the accepted frame carries
+
+`accept_means_same_frames` assumes `hsame` (the accepted frame carries the sender's first seal).
+Below that is DERIVED: the frame `g` is ANY frame of the C02 adversary's closure (`C02.AdvWire`:
+arbitrary headers; body = arbitrary bytes, or any seal the sender emitted in `sent`, first or later,
+or any seal the receiving endpoint itself emitted in `own`, reflected; IV prefix kept, stripped or
+replaced; seals under other keys at will). -/
+
+/-- core, at the `decryptDataWithAAD` level -/
+theorem same_frames_of_open (S0 R0 S' R' : Stream) (k : Nat) (ivS ivR : IV)
+    (ops opsR : List SendOp) (sent own : List WireFrame) (g : WireFrame) (p : Bytes) (ivr : IV)
+    (sS rS rR sR : List (Nat × Bytes))
+    (hsS : SentIs S0 sS) (hrS : RecvdIs S0 rS) (hrR : RecvdIs R0 rR) (hsR : SentIs R0 sR)
+    (hok : (∀ x ∈ sS, FrameOK x) ∧ (∀ x ∈ rS, FrameOK x) ∧ (∀ x ∈ rR, FrameOK x) ∧ (∀ x ∈ sR, FrameOK x))
+    (hivS : ivS.w0 < 2^32) (hivR : ivR.w0 < 2^32) (hsep : ivS.tail ≠ ivR.tail)
+    (hsend : (S0.setKey k ivS).sendAll ops = .ok (S', sent))
+    (hown : (R0.setKey k ivR).sendAll opsR = .ok (R', own))
+    (hadv : C02.AdvWire k sent own [g])
+    (hopen : (R0.setKey k ivR).openBody k g = .ok (ivr, p)) :
+    rR = sS ∧ sR = rS ∧
+    ∃ f ivo sl, sent.head? = some f ∧ f.body = .ct ivo sl ∧ g.body = .ct (some ivS) sl ∧ sl.plain = p := by
+  obtain ⟨items, hsent, _, _, _, _⟩ := sendAll_spec ops _ S' 0 sent (setKey_sendInv S0 k ivS) hsend
+  obtain ⟨itemsR, hownE, _, _, _, _⟩ := sendAll_spec opsR _ R' 0 own (setKey_sendInv R0 k ivR) hown
+  have hg := C02.advWire_advFrame (dgR := (R0.dig.fs, R0.dig.fr)) hsep hsent hownE hadv g (List.mem_singleton.mpr rfl)
+  obtain ⟨it, hit, hgb, hdg, hp, _⟩ :=
+    first_open_is_senders_seal (r := R0.setKey k ivR) hivS rfl (by simp [Stream.setKey]) rfl hivR hg hopen
+  have kR := setKey_keeps_digests R0 k ivR
+  rw [kR.1, kR.2, sentIs_fs _ _ hsS, recvdIs_fr _ _ hrS, recvdIs_fr _ _ hrR, sentIs_fs _ _ hsR] at hdg
+  simp only [Prod.mk.injEq] at hdg
+  refine ⟨digestOf_inj _ _ hok.2.2.1 hok.1 hdg.1.symm, digestOf_inj _ _ hok.2.2.2 hok.2.1 hdg.2.symm, ?_⟩
+  cases items with
+  | nil => simp at hit
+  | cons it0 tl =>
+    simp only [List.getElem?_cons_zero, Option.some.injEq] at hit
+    subst hit
+    refine ⟨frameAt k ivS (S0.dig.fs, S0.dig.fr) 0 it0, some ivS, _, by rw [hsent]; rfl, rfl, hgb, ?_⟩
+    rw [hp]; rfl
+
+/-- **accept_means_same_frames_adv** (the property's first sentence against the C02 adversary).
+    The sender SENT cleartext frames `sS` and RECEIVED `rS` before installing its key, the receiver
+    RECEIVED `rR` and SENT `sR` before installing the same key; then the sender's application
+    performs ANY accepted send history `ops`, the receiving endpoint any `opsR` of its own, and the
+    adversary presents ANY frame `g` of its closure. If `ReceiveFrameWithEnd` accepts `g` as the
+    first protected frame of the direction, then `rR = sS` and `sR = rS` — both ends saw exactly the
+    same cleartext frames in each direction — and `g` carries the sender's FIRST seal (what
+    `accept_means_same_frames` assumed as `hsame`). One session hypothesis, as in C02: the two fresh
+    IVs differ in their last 12 bytes. -/
+theorem accept_means_same_frames_adv (S0 R0 S' R' R'' : Stream) (k : Nat) (ivS ivR : IV)
+    (ops opsR : List SendOp) (sent own : List WireFrame) (g : WireFrame) (p : Bytes) (fl' : Nat)
+    (sS rS rR sR : List (Nat × Bytes))
+    (hsS : SentIs S0 sS) (hrS : RecvdIs S0 rS) (hrR : RecvdIs R0 rR) (hsR : SentIs R0 sR)
+    (hok : (∀ x ∈ sS, FrameOK x) ∧ (∀ x ∈ rS, FrameOK x) ∧ (∀ x ∈ rR, FrameOK x) ∧ (∀ x ∈ sR, FrameOK x))
+    (hivS : ivS.w0 < 2^32) (hivR : ivR.w0 < 2^32) (hsep : ivS.tail ≠ ivR.tail)
+    (hsend : (S0.setKey k ivS).sendAll ops = .ok (S', sent))
+    (hown : (R0.setKey k ivR).sendAll opsR = .ok (R', own))
+    (hadv : C02.AdvWire k sent own [g])
+    (hrecv : (R0.setKey k ivR).recvFrameWithEnd g = .ok (R'', p, fl')) :
+    rR = sS ∧ sR = rS ∧
+    ∃ f ivo sl, sent.head? = some f ∧ f.body = .ct ivo sl ∧ g.body = .ct (some ivS) sl ∧ sl.plain = p := by
+  obtain ⟨ivr, hopen⟩ := C02.no_bypass _ R'' k g p fl' rfl rfl hrecv
+  exact same_frames_of_open S0 R0 S' R' k ivS ivR ops opsR sent own g p ivr sS rS rR sR hsS hrS hrR hsR hok
+    hivS hivR hsep hsend hown hadv hopen
+
+/-- the same when the first protected frame is read with plain `ReceiveFrame` (GetSecret / GetFile) -/
+theorem accept_means_same_frames_adv_recvFrame (S0 R0 S' R' R'' : Stream) (k : Nat) (ivS ivR : IV)
+    (ops opsR : List SendOp) (sent own : List WireFrame) (g : WireFrame) (p : Bytes)
+    (sS rS rR sR : List (Nat × Bytes))
+    (hsS : SentIs S0 sS) (hrS : RecvdIs S0 rS) (hrR : RecvdIs R0 rR) (hsR : SentIs R0 sR)
+    (hok : (∀ x ∈ sS, FrameOK x) ∧ (∀ x ∈ rS, FrameOK x) ∧ (∀ x ∈ rR, FrameOK x) ∧ (∀ x ∈ sR, FrameOK x))
+    (hivS : ivS.w0 < 2^32) (hivR : ivR.w0 < 2^32) (hsep : ivS.tail ≠ ivR.tail)
+    (hsend : (S0.setKey k ivS).sendAll ops = .ok (S', sent))
+    (hown : (R0.setKey k ivR).sendAll opsR = .ok (R', own))
+    (hadv : C02.AdvWire k sent own [g])
+    (hrecv : (R0.setKey k ivR).recvFrame g = .ok (R'', p)) :
+    rR = sS ∧ sR = rS := by
+  obtain ⟨ivr, hopen⟩ := C02.no_bypass_recvFrame _ R'' k g p rfl rfl hrecv
+  have := same_frames_of_open S0 R0 S' R' k ivS ivR ops opsR sent own g p ivr sS rS rR sR hsS hrS hrR hsR hok
+    hivS hivR hsep hsend hown hadv hopen
+  exact ⟨this.1, this.2.1⟩
+
+/-- **tamper_kills_first_frame_adv**: contrapositive — if the two ends' cleartext histories differ in
+    either direction, NO frame the adversary can build is accepted as the first protected frame. -/
+theorem tamper_kills_first_frame_adv (S0 R0 S' R' : Stream) (k : Nat) (ivS ivR : IV)
+    (ops opsR : List SendOp) (sent own : List WireFrame) (g : WireFrame)
+    (sS rS rR sR : List (Nat × Bytes))
+    (hsS : SentIs S0 sS) (hrS : RecvdIs S0 rS) (hrR : RecvdIs R0 rR) (hsR : SentIs R0 sR)
+    (hok : (∀ x ∈ sS, FrameOK x) ∧ (∀ x ∈ rS, FrameOK x) ∧ (∀ x ∈ rR, FrameOK x) ∧ (∀ x ∈ sR, FrameOK x))
+    (hivS : ivS.w0 < 2^32) (hivR : ivR.w0 < 2^32) (hsep : ivS.tail ≠ ivR.tail)
+    (hsend : (S0.setKey k ivS).sendAll ops = .ok (S', sent))
+    (hown : (R0.setKey k ivR).sendAll opsR = .ok (R', own))
+    (hadv : C02.AdvWire k sent own [g])
+    (hdiff : rR ≠ sS ∨ sR ≠ rS) :
+    ∃ e, (R0.setKey k ivR).recvFrameWithEnd g = .error e := by
+  cases hr : (R0.setKey k ivR).recvFrameWithEnd g with
+  | error e => exact ⟨e, rfl⟩
+  | ok r =>
+    obtain ⟨R'', p, fl'⟩ := r
+    have := accept_means_same_frames_adv S0 R0 S' R' R'' k ivS ivR ops opsR sent own g p fl' sS rS rR sR
+      hsS hrS hrR hsR hok hivS hivR hsep hsend hown hadv hr
+    rcases hdiff with h | h
+    · exact absurd this.1 h
+    · exact absurd this.2.1 h
+
+/-! Non-vacuity: client sends one cleartext frame, server receives it; both key; the client's two
+    protected frames form `sent`; the adversary presents the first one (accepted), and the second one
+    re-headed with the client's IV (in the closure, rejected). -/
+private def cS0 : Stream := match ({} : Stream).sendFrame [1, 2, 3] 1 with | .ok (s, _) => s | .error _ => {}
+private def cR0 : Stream := match ({} : Stream).recvFrameWithEnd ⟨1, 3, .raw [1, 2, 3]⟩ with | .ok (s, _, _) => s | .error _ => {}
+private def cSent : List WireFrame := match (cS0.setKey 9 ⟨1, [1]⟩).sendAll [([7], 1), ([8], 1)] with | .ok (_, fs) => fs | .error _ => []
+example : SentIs cS0 [(1, [1, 2, 3])] ∧ RecvdIs cS0 [] ∧ RecvdIs cR0 [(1, [1, 2, 3])] ∧ SentIs cR0 [] := by
+  refine ⟨⟨rfl, rfl, rfl⟩, ⟨rfl, rfl, rfl⟩, ⟨rfl, rfl, rfl⟩, ⟨rfl, rfl, rfl⟩⟩
+example : cSent.length = 2 ∧ ((cR0.setKey 9 ⟨2, [2]⟩).recvFrameWithEnd (cSent.headD default)).toBool = true := by decide
+example : C02.AdvWire 9 cSent [] [cSent.headD default] := by
+  intro g hg
+  simp only [List.mem_singleton] at hg
+  subst hg
+  exact ⟨by decide, fun _ => .inl ⟨cSent.headD default, by decide, _, rfl⟩⟩
 
 end Cedar.C04
